@@ -1,6 +1,7 @@
 (** Issuance LTS: F3 (callers agree) -- thread-level lemmas. *)
 From Coq Require Import List Bool Arith Lia.
 From CM Require Import Issuance.Model Issuance.Proofs Issuance.Invariants Issuance.NoReissueTL.
+From CM Require Export Issuance.AgreeTL0.
 Import ListNotations.
 
 (** the bundle under storage name [n] is complete and its certificate is not due *)
@@ -86,52 +87,3 @@ Proof.
   all: try (destruct Htr; discriminate).
 Qed.
 
-(** shape of ManageSync's steps after a load *)
-Lemma tstep_manage_shape t th s f b th' s' e :
-  c_prog (cfg th) = PManage -> tstep t th s f b = Some (th', s', e) ->
-  (forall ph, tpc th' = PMOcsp ph ->
-      tpc th = PMLd ph KMeta /\ sto s' = sto s /\ lcrt th' = lcrt th /\ (exists ce, lcrt th = Some ce) /\
-      sto s (SK (c_vk (cfg th)) KMeta) <> None) /\
-  (forall ph, tpc th' = PMEmit ph -> tpc th = PMOcsp ph /\ lcrt th' = lcrt th /\ seen th' = lcrt th) /\
-  (tpc th' = PDone ROk ->
-      (exists ph, tpc th = PMEmit ph /\ seen th' = seen th) \/ (tpc th = PMOcsp PhR /\ seen th' = lcrt th)).
-Proof.
-  intros Hp H. destruct th as [c p cu ? ? ? ? ? ? ? ?]. simpl in *. destruct p.
-  all: tstep_full H. all: inv_some H; simpl in *.
-  all: try (rewrite Hp in *; try discriminate).
-  all: try (split; [|split]; [intros ph0 X; discriminate X|intros ph0 X; discriminate X|intros X; discriminate X]; fail).
-  all: split; [|split]; try (intros ph0 X; discriminate X); try (intros X; discriminate X).
-  all: intros; simpl in *;
-       repeat match goal with
-              | E : PMOcsp _ = PMOcsp _ |- _ => inversion E; subst; clear E
-              | E : PMEmit _ = PMEmit _ |- _ => inversion E; subst; clear E
-              end.
-  all: try (left; eexists; split; reflexivity).
-  all: try (right; split; reflexivity).
-  all: try (split; [reflexivity|split; reflexivity]).
-  all: repeat split; try congruence.
-  all: destruct lkey, lcrt; simpl in *; try discriminate; eauto.
-Qed.
-
-(** ManageSync's load window (between its Load of the key and its Load of the metadata, outside
-    the lock) and a saver's window (between its Store of the key and the end of the save) *)
-Definition in_load_window (th : thread) : Prop :=
-  match tpc th with PMLd _ KCrt | PMLd _ KMeta => True | _ => False end.
-Definition in_save_window (th : thread) : Prop :=
-  match tpc th with PSave KCrt | PSave KMeta | PRoll _ => True | _ => False end.
-
-(** a step that changes the request's bundle is made inside its save *)
-Lemma tstep_write_shape t th s f b th' s' e :
-  twf th -> cert_prog (cfg th) -> tstep t th s f b = Some (th', s', e) ->
-  (forall j, sto s' (SK (c_vk (cfg th)) j) = sto s (SK (c_vk (cfg th)) j)) \/
-  (locked (tpc th) = true /\ (in_save_window th \/ (tpc th = PSave KKey /\ tpc th' = PSave KCrt))).
-Proof.
-  intros (Hw1 & Hw2 & Hw3) Hcp H.
-  destruct th as [c p cu ? ? ? ? ? ? ? ?]. unfold cert_prog, in_save_window in *; simpl in *. destruct p; simpl in *.
-  all: tstep_full H. all: inv_some H; simpl in *.
-  all: try (left; intros j0; reflexivity).
-  all: try (right; split; [reflexivity|]; left; exact I).
-  all: try (right; split; [reflexivity|]; right; split; reflexivity).
-  all: try (exfalso; destruct (c_prog c); simpl in *; intuition (try discriminate; try congruence); fail).
-  all: inversion Heqo; subst; right; split; [reflexivity|]; right; split; reflexivity.
-Qed.
